@@ -195,6 +195,8 @@ def _short(v):
 
 
 def target_of(qualname):
+    from . import ntrace
+    ntrace.install()        # before the target is looked up: when the target is itself one of the recorded functions (Message.show) it has to be the recording one
     c = contracts.REG[qualname]
     if c.kind == 'lemma':
         return c, c.fn
@@ -233,7 +235,9 @@ def search(qualname, seed, budget_s, max_iter=200000, start=0):
             import os as _os
             tb = traceback.extract_tb(e.__traceback__)
             in_repo = [f for f in tb if _os.path.realpath(f.filename).startswith(_os.path.realpath(repo.REPO) + _os.sep)]
-            if in_repo:
+            if in_repo and not isinstance(e, RuntimeError):
+                # (RuntimeError is the repo's way of rejecting an input: a generator that gets one fed something ill-formed - a generator bug,
+                # counted below, not a finding)
                 last = in_repo[-1]
                 return {'function': qualname, 'seed': seed, 'iteration': it, 'args': '(scenario under construction)', 'clause': 'scenario_construction',
                         'observed': 'the real code raised %s: %s at %s:%d (%s) while the generator was building a well-formed scenario' % (
